@@ -75,12 +75,14 @@ pub struct Tp {
     pub max_bi: u32,
     /// datagram send buffer (None = default)
     pub dgram_send_buf: Option<usize>,
+    /// max idle timeout in seconds
+    pub idle_secs: u64,
 }
 
 impl Tp {
     pub fn build(&self) -> TransportConfig {
         let mut t = TransportConfig::default();
-        t.max_idle_timeout(Some(Duration::from_secs(120).try_into().unwrap()));
+        t.max_idle_timeout(Some(Duration::from_secs(self.idle_secs).try_into().unwrap()));
         // loopback: a small initial RTT estimate keeps the drain period after a close short
         t.initial_rtt(Duration::from_millis(20));
         if let Some(w) = self.stream_window {
